@@ -163,6 +163,12 @@ pub fn supported(rng: &mut Rng, t: &TableInfo) -> String {
 /// Constructs sqlparser accepts but LocustDB does not support, and plainly failing requests.
 pub fn unsupported_or_failing(rng: &mut Rng, t: &TableInfo) -> String {
     let c = int_col(rng, t);
+    let v = all_unsupported_or_failing(&c, t);
+    rng.pick(&v).clone()
+}
+
+/// every template, for column `c` (also used to warm a process up: each error path once)
+pub fn all_unsupported_or_failing(c: &str, t: &TableInfo) -> Vec<String> {
     let tn = q(&t.name);
     let v: Vec<String> = vec![
         format!("SELECT {c} FROM {tn} GROUP BY {c}"),
@@ -187,6 +193,10 @@ pub fn unsupported_or_failing(rng: &mut Rng, t: &TableInfo) -> String {
         format!("SELECT 9223372036854775807 + {c} FROM {tn}"),
         format!("SELECT {c} * 9223372036854775807 FROM {tn}"),
         format!("SELECT SUM({c} * 4611686018427387904) FROM {tn}"),
+        // (overflow that only shows when the partial sums of several partitions are merged)
+        format!("SELECT SUM({c}) FROM {tn}"),
+        format!("SELECT SUM({c}), COUNT(1) FROM {tn} WHERE {c} > 0"),
+        format!("SELECT SUM({c} + 1152921504606846976) FROM {tn}"),
         format!("SELECT {c} + 'a' FROM {tn}"),
         format!("SELECT length({c}) FROM {tn}"),
         format!("SELECT regex({c}, '(') FROM {tn}"),
@@ -223,7 +233,7 @@ pub fn unsupported_or_failing(rng: &mut Rng, t: &TableInfo) -> String {
         format!("SELECT {c} FROM {tn} ORDER BY nosuchcol DESC LIMIT 3"),
         format!("SELECT ((((((((((((((((((((((((((((((({c}))))))))))))))))))))))))))))))) FROM {tn}"),
     ];
-    rng.pick(&v).clone()
+    v
 }
 
 /// Byte-level mutation of a statement (kept valid UTF-8: the API takes &str).
